@@ -53,7 +53,7 @@ def run(ck: vlib.Check):
         props_ok = built and ck.check_props("props/C15.v")
     jobs = []
     for ep in EPS:
-        for dst in ("absent", "existing", "empty", "symlink", "same", "dotdot", "brackets", "star", "nul"):
+        for dst in ("absent", "existing", "empty", "symlink", "same", "dotdot", "brackets", "star", "nul", "tilde"):
             if dst == "same" and ep in (0,):
                 continue
             for ow in ("default", False, True):
